@@ -6,45 +6,86 @@ as_lines, as_file, write_to, freeze, ...) is applied to its nodes; every access 
 division into lines of the reference value (vlib/ref/c14_model.py).
 Layer B (CLI): the same texts through the real program with MainProgram(mem_buff_size=B): files written from
 TEXT-SOURCEs are compared byte by byte, and families of assertions that must agree (M, `-transformed-by identity M`,
-`( M && M )`, `( M || M )`, different kinds of source for expected/actual) are compared with the reference verdict.
+`( M && M )`, `( M || M )`, different kinds of source for expected/actual) are compared with the reference verdict
+(cli_verdicts); cli_metamorphic needs no reference semantics: an arbitrary matcher M (nested ! && ||, quantifiers over
+lines, regexes, -transformed-by) is defined once as a symbol and `contents FILE : M` must give the same verdict as every
+other kind of source with the same text (act output, program output, file made from a literal, `exists F : contents`)
+under every wrapping that leaves the text as it is (identity, ( identity | identity ), ( M && M ), ( M || M ),
+filter constant true, run cat, -line-nums that select every line).
 
-Deviations that are exactly what one of the three modelled defects predicts are reported as KF-C14-1..3 (see
-c14_model: D1 str.splitlines on texts held in memory, D2 universal newlines on texts held in files, D3 the spooled
-file's rollover position); every other deviation is a violation.
+One defect of /repo is known and stays (KF-C14-2, universal newlines when a text is read back from a file, defect
+model D2 in c14_model).  A deviation is reported as that known finding only when (a) the observed value is one that D2
+predicts for this very case and (b) the same case shows no deviation when it is run once more with newline
+translation switched off (`_no_newline_translation`); every other deviation - in particular every one on a text
+without CR - is a violation.
 """
 
+import builtins
+import contextlib
+import io
 import os
 import shutil
 import traceback
 
-from hypothesis import strategies as st
-
-from vlib import driver
+from vlib import driver, fuzz
 from vlib.gen import c14_gen as gen
 from vlib.ref import c14_model as model
 from vlib.runner import Sub, Verdict, fail
 
 PROPERTY_ID = 'C14'
 LEVEL = 'exploration'
-RULE = ('layer A: case = (buffer size B in {1,2,3,5,8,16,64,8192}, source tree of <= 3 transformers over literal / file / '
+RULE = ('layer A (api_access, api_access_fuzz): case = (buffer size B >= 1: mostly 1..64 and 8192, sometimes the length of '
+        'the text in characters or bytes +-1, source tree of <= 3 (thorough <= 5) transformers over literal / file / '
         'program-output leaves and concatenations, 2-8 accesses as_str/as_lines/partial as_lines/as_file/write_to/'
-        'freeze/... addressed to any node); non-trivial = some leaf text has a character str.splitlines treats as a '
-        'line break, a CR, or at least B characters, and the sequence has two different access methods with a freeze '
-        'between them; distinct = distinct case.  Layer B: case = (B, text, source kinds, transformer chain, matcher '
-        'family); non-trivial = same text rule; distinct = distinct case')
+        'freeze/... addressed to any node); api_orders: every order of as_str, as_lines, as_file, write_to, freeze on '
+        'the root of 12 fixed trees (one per caching kind) x buffer sizes around the text length; api_small_texts: every '
+        'text of <= 3 characters over {a, new-line, form feed, e-acute} x B in 1..4 x 5 caching sources under one access '
+        'sequence with every access method before and after freeze; non-trivial = some '
+        'leaf text has a character that some line-splitting routine treats as a line break, a CR, or at least B '
+        'characters, and the sequence has two different access methods with a freeze between them; distinct = distinct '
+        'case.  Layer B: case = (B, text, source kinds of actual and expected, transformer chain, matcher, wrapper '
+        'plain / identity / ( identity | identity ) / ( M && M ) / ( M || M )) resp. (B, sources, consumers file = / '
+        'file += / env / stdin, phase) resp. cli_metamorphic (B, text without CR, matcher tree of depth <= 2 over num-lines / '
+        'equals / matches / any|every line / ! && || / -transformed-by: 5 source kinds x 9 wrappings must agree with '
+        '`contents FILE : M`); non-trivial = same text rule; distinct = distinct case')
 ASSUMPTIONS = [
     'the division into lines is "split after every \\n" (manual of replace/strip: "Lines are separated by "\\n", '
     'regardless of the current OS"; filter: "the line separator depends on the current OS" = "\\n" here)',
     'CR is an ordinary character of a text on this OS; a test-case FILE is itself read with universal newlines, so '
     'literals written in a case file never contain CR (they do in layer A when built by the factory)',
     'the transformer set is small and unambiguous on purpose (C05 owns transformer semantics); run-programs are '
-    '`cat` and `tr a X`',
-    'defect-model classification is by exact equality with a value in the closure of the reference value under '
-    'D1/D2/D3 applied wherever a text may be held in memory / in a file / spooled; it is not a simulation of which '
-    'representation the implementation picks',
+    '`cat`, `tr a X` and (verdict layer only) a program that prints the number of times it has been run before it '
+    'copies its input: an assertion - plain, wrapped in identity, or written ( M && M ) - is expected to see the '
+    'output of ONE run',
+    'KF-C14-2 classification = the observed value is in the closure of the reference value under "CR LF / CR read '
+    'as LF wherever a text can be read back from a file" AND the case is clean when every text-mode open() of the run '
+    'is given newline="\\n" (the counterfactual in which only that defect is absent); this is an attribution of the '
+    'deviation to the defect, not a simulation of which representation the implementation picks',
 ]
 
-KF_NAMES = {'KF-C14-1': 'splitlines', 'KF-C14-2': 'universal-newlines', 'KF-C14-3': 'rollover-seek'}
+KF = model.KNOWN_ID
+
+
+@contextlib.contextmanager
+def _no_newline_translation():
+    """The counterfactual "KF-C14-2 repaired": every text-mode open() without an explicit `newline` gets
+    newline='\\n' (no translation when reading or writing, lines end at '\\n' only).  Nothing else changes."""
+    real = io.open
+
+    def open_without_translation(file, mode='r', buffering=-1, encoding=None, errors=None, newline=None,
+                                 closefd=True, opener=None):
+        if newline is None and 'b' not in mode:
+            newline = '\n'
+        return real(file, mode, buffering, encoding, errors, newline, closefd, opener)
+
+    builtins.open = open_without_translation
+    io.open = open_without_translation
+    try:
+        yield
+    finally:
+        builtins.open = real
+        io.open = real
+
 
 
 # ======================================================================================================
@@ -207,7 +248,7 @@ def _access(api, obj, op, arg, d, k):
 
 def _api_labels(case):
     src, buff = case['src'], case['buff']
-    labels = ['B:%d' % buff]
+    labels = [gen.buff_label(buff)]
     texts = model.leaf_texts(src)
     for t in texts:
         labels.extend(gen.flavour_labels(t, buff))
@@ -233,27 +274,23 @@ def _api_nontrivial(case, texts):
     return special and ok
 
 
-def check_api(case) -> Verdict:
+def _api_eval(case):
+    """One execution of the case -> ('error', bucket, detail) | ('done', mismatches)
+    mismatch = (bucket, detail, d2: bool)   d2 = the observed value is one that defect model D2 predicts."""
     buff, src, ops = case['buff'], case['src'], case['ops']
     api = _Api.get()
     d, env, fac = api.new_case(buff)
-    labels, texts = _api_labels(case)
-    nontrivial = _api_nontrivial(case, texts)
-    if nontrivial:
-        labels.append('nontrivial')
     built = _Built()
-    known = None
-    known_detail = None
+    mismatches = []
     try:
         try:
             _build(api, env, fac, buff, src, built, 'c%d_' % api.n)
         except _ApiValidationError:
-            return fail('api/build/validation-error', {'case': case, 'syntax': built.syntax}, labels=labels)
+            return 'error', 'api/build/validation-error', {'case': case, 'syntax': built.syntax}
         except Exception as ex:
-            return fail('api/build/exception/' + type(ex).__name__,
-                        {'case': case, 'syntax': built.syntax,
-                         'exception': '%s: %s\n%s' % (type(ex).__name__, ex, traceback.format_exc(limit=6))},
-                        labels=labels)
+            return ('error', 'api/build/exception/' + type(ex).__name__,
+                    {'case': case, 'syntax': built.syntax,
+                     'exception': '%s: %s\n%s' % (type(ex).__name__, ex, traceback.format_exc(limit=6))})
         refs = [model.ref_text(n) for n in built.nodes]
         history = []
         frozen_seen = False
@@ -261,83 +298,59 @@ def check_api(case) -> Verdict:
             node = built.nodes[target]
             expected = refs[target]
             step = 'op %d: %s%s on node %d' % (k, op, '' if arg is None else '(%d)' % arg, target)
-            exc = None
             try:
                 what, got = _access(api, built.objects[target], op, arg, d, k)
-            except UnicodeDecodeError as ex:
-                what, got, exc = 'exception', None, ex
             except Exception as ex:
-                return fail('api/%s/exception/%s' % (op, type(ex).__name__),
-                            {'step': step, 'history': history, 'buff': buff, 'source': src, 'syntax': built.syntax,
-                             'expected_text': expected,
-                             'exception': '%s: %s\n%s' % (type(ex).__name__, ex, traceback.format_exc(limit=8))},
-                            labels=labels, nontrivial=nontrivial)
+                return ('error', 'api/%s/exception/%s' % (op, type(ex).__name__),
+                        {'step': step, 'history': history, 'buff': buff, 'source': src, 'syntax': built.syntax,
+                         'expected_text': expected,
+                         'exception': '%s: %s\n%s' % (type(ex).__name__, ex, traceback.format_exc(limit=8))})
             history.append(step)
             if op == 'freeze':
                 frozen_seen = True
             phase = 'after-freeze' if frozen_seen else 'before-freeze'
-            mismatch = None  # (bucket suffix, observed, tags of the predicting defect models | None)
+            mismatch = None  # (class, observed, predicted by D2)
             if what == 'none':
                 continue
-            if what == 'exception':
-                tags = model.classify_text(node, buff, None)
-                mismatch = ('undecodable', repr(exc), tags)
-            elif what == 'text':
+            if what == 'text':
                 if got != expected:
-                    mismatch = (_diff_class(expected, got), got, model.classify_text(node, buff, got))
+                    mismatch = (_diff_class(expected, got), got, model.d2_predicts_text(node, got))
             elif what == 'bytes':
                 if got != expected.encode('utf-8'):
                     try:
                         as_text = got.decode('utf-8')
-                        tags = model.classify_text(node, buff, as_text)
+                        d2 = model.d2_predicts_text(node, as_text)
                     except UnicodeDecodeError:
-                        as_text = repr(got)
-                        tags = model.classify_text(node, buff, None)
-                    mismatch = (_diff_class(expected, as_text), as_text, tags)
+                        as_text, d2 = repr(got), False
+                    mismatch = (_diff_class(expected, as_text), as_text, d2)
             elif what == 'lines':
                 exp_lines = list(model.nl_split(expected))
                 if got != exp_lines:
                     cls = 'division' if ''.join(got) == expected else _diff_class(expected, ''.join(got))
-                    mismatch = (cls, got, model.classify_lines(node, buff, got))
+                    mismatch = (cls, got, model.d2_predicts_lines(node, got))
             elif what == 'prefix-lines':
                 exp_lines = list(model.nl_split(expected))[:arg]
                 if got != exp_lines:
-                    tags = None
-                    cl = model.closure(node, buff)
-                    best = None
-                    for v, t in cl.values.items():
-                        if v is not model.UNDECODABLE and list(v[:arg]) == got and t:
-                            if best is None or len(t) < len(best):
-                                best = t
-                    tags = best
-                    mismatch = ('prefix', got, tags)
+                    d2 = any(list(model.nl_split(t)[:arg]) == got for t in model.d2_texts(node))
+                    mismatch = ('prefix', got, d2)
             elif what == 'head':
                 text, more = got
                 # whole lines from the start, at least `arg` characters unless the text ends before
                 exp_head = model.head_of(model.nl_split(expected), arg)
                 if text != exp_head or more != (len(exp_head) >= arg):
-                    tags = None
-                    for v, tg in model.closure(node, buff).values.items():
-                        if tg and v is not model.UNDECODABLE and model.head_of(v, arg) == text:
-                            tags = tg if tags is None or len(tg) < len(tags) else tags
-                    mismatch = ('head', [text, more], tags)
+                    d2 = any(model.head_of(model.nl_split(t), arg) == text and more == (len(text) >= arg)
+                             for t in model.d2_texts(node))
+                    mismatch = ('head', [text, more], d2)
             if mismatch is None:
                 continue
-            cls, observed, tags = mismatch
-            detail = {'step': step, 'history': history, 'buff': buff, 'source': src, 'syntax': built.syntax,
+            cls, observed, d2 = mismatch
+            detail = {'step': step, 'history': list(history), 'buff': buff, 'source': src, 'syntax': built.syntax,
                       'expected_text': expected, 'expected_lines': list(model.nl_split(expected)),
                       'observed': observed}
-            bucket = 'api/%s/%s/%s' % (op, phase, cls)
-            if tags:
-                kf = model.known_id(tags)
-                detail['defect_model'] = 'predicted by ' + '+'.join(sorted(tags))
-                if known is None:
-                    known, known_detail = kf, (bucket, detail)
-                labels.append('known:' + '+'.join(sorted(tags)))
-                # a text that was read with a modelled defect may have been cached: later accesses of this case are
-                # not comparable any more
+            mismatches.append(('api/%s/%s/%s' % (op, phase, cls), detail, d2))
+            if not d2:
                 break
-            return fail(bucket, detail, labels=labels, nontrivial=nontrivial)
+        return 'done', mismatches
     finally:
         if d.exists():
             shutil.rmtree(str(d), ignore_errors=True)
@@ -346,10 +359,36 @@ def check_api(case) -> Verdict:
                 os.unlink(str(api.home / name))
             except OSError:
                 pass
-    if known:
-        return Verdict(ok=False, known=known, bucket=known_detail[0], detail=known_detail[1], labels=labels,
-                       nontrivial=nontrivial)
-    return Verdict(True, labels=labels, nontrivial=nontrivial)
+
+
+def check_api(case) -> Verdict:
+    labels, texts = _api_labels(case)
+    nontrivial = _api_nontrivial(case, texts)
+    if nontrivial:
+        labels.append('nontrivial')
+    res = _api_eval(case)
+    if res[0] == 'error':
+        return fail(res[1], res[2], labels=labels, nontrivial=nontrivial)
+    mismatches = res[1]
+    if not mismatches:
+        return Verdict(True, labels=labels, nontrivial=nontrivial)
+    for bucket, detail, d2 in mismatches:
+        if not d2:
+            return fail(bucket, detail, labels=labels, nontrivial=nontrivial)
+    # every deviation is a value that D2 predicts: they must all vanish when newline translation is switched off
+    bucket, detail, _ = mismatches[0]
+    detail['all_deviating_steps'] = [m[1]['step'] for m in mismatches]
+    with _no_newline_translation():
+        res2 = _api_eval(case)
+    if res2[0] == 'error' or res2[1]:
+        detail['without_newline_translation'] = (
+            {'bucket': res2[1], 'detail': res2[2]} if res2[0] == 'error'
+            else {'bucket': res2[1][0][0], 'step': res2[1][0][1]['step'], 'observed': res2[1][0][1]['observed']})
+        return fail(bucket + '/persists-without-newline-translation', detail, labels=labels, nontrivial=nontrivial)
+    detail['defect_model'] = ('observed values are what universal-newline reading of a text held in a file gives; '
+                              'no deviation when text files are opened with newline="\\n"')
+    return Verdict(ok=False, known=KF, bucket=bucket, detail=detail, labels=labels + ['known:D2'],
+                   nontrivial=nontrivial)
 
 
 def check_api_freeze_once(case) -> Verdict:
@@ -358,7 +397,7 @@ def check_api_freeze_once(case) -> Verdict:
     buff, text, trs, ops = case['buff'], case['text'], case['trs'], case['ops']
     api = _Api.get()
     d, env, fac = api.new_case(buff)
-    labels = ['B:%d' % buff, 'depth:%d' % len(trs)]
+    labels = [gen.buff_label(buff), 'depth:%d' % len(trs)]
     for tr in trs:
         labels.extend('tr:' + t for t in model.tr_tags(tr))
     labels = sorted(set(labels))
@@ -485,7 +524,7 @@ _IDENTS = ('PASS', 'FAIL', 'HARD_ERROR', 'INTERNAL_ERROR', 'VALIDATION_ERROR', '
 
 
 def _cli_text_labels(texts, buff):
-    labels = ['B:%d' % buff]
+    labels = [gen.buff_label(buff)]
     for t in texts:
         labels.extend(gen.flavour_labels(t, buff))
     return sorted(set(labels))
@@ -497,16 +536,19 @@ def _failing_line(r):
 
 
 def _actual_node(kind, text, tr):
-    if kind == 'cnt':
-        # a program whose output starts with the number of times it has been run: an assertion runs it once
-        leaf = ['prog', '1\n' + text, 'out', False]
-    else:
-        leaf = ['prog', text, 'out', False] if kind == 'prog' else ['file', text]
+    """The text an assertion looks at.  `stdout -from PROGRAM [-transformed-by T]`: the transformer belongs to the
+    PROGRAM, whose transformed output is stored in a file that then is the model."""
+    if kind in ('cnt', 'prog'):
+        # 'cnt': a program whose output starts with the number of times it has been run: an assertion runs it once
+        leaf = ['prog', ('1\n' + text) if kind == 'cnt' else text, 'out', False]
+        return ['stored', gen.as_rendered(['tr', tr, leaf]) if tr is not None else leaf]
+    leaf = ['file', text]
     return gen.as_rendered(['tr', tr, leaf]) if tr is not None else leaf
 
 
-def build_verdict_case(case):
-    """-> (case text, files, [(first line, last line, instruction, actual node, reference verdict)])"""
+def build_verdict_case(case, skip=()):
+    """-> (case text, files, [(first line, last line, instruction, actual node, reference verdict, index)])
+    ``skip``: indexes of instructions that are left out."""
     text, tr = case['text'], case['tr']
     files = {'actual.txt': text}
     out = ['[setup]\n']
@@ -520,96 +562,159 @@ def build_verdict_case(case):
         node = _actual_node(ins['a'], text, tr)
         ref = model.ref_verdict(node, ins['m'])
         src = gen.render_instruction(ins, tr, not ref, files, idx)
+        if idx in skip:
+            continue
         n = src.count('\n')
-        spans.append((line, line + n - 1, ins, node, ref))
+        spans.append((line, line + n - 1, ins, node, ref, idx))
         line += n
         out.append(src)
     return ''.join(out), files, spans
 
 
-def check_cli_verdicts(case) -> Verdict:
-    buff = case['buff']
-    case_text, files, spans = build_verdict_case(case)
-    t_actual = model.ref_text(_actual_node('file', case['text'], case['tr']))
-    labels = _cli_text_labels([case['text']], buff)
-    if case['tr'] is not None:
-        labels.extend('tr:' + t for t in model.tr_tags(case['tr']))
-    for _, _, ins, _, ref in spans:
-        labels.append('ins:%s/%s/%s' % (ins['a'], ins['w'], ins['m'][0]))
-        labels.append('ref-verdict:%s' % ref)
-        if ins['m'][0] == 'eq':
-            labels.append('expected-kind:' + ins['m'][1][0])
-    labels = sorted(set(labels))
-    nontrivial = gen.is_special(case['text'], buff) or gen.is_special(t_actual, buff)
+def _run_verdict_case(case, skip):
+    case_text, files, spans = build_verdict_case(case, skip)
     with driver.Workspace() as ws:
         for name, content in files.items():
             ws.write(name, content.encode('utf-8'))
         ws.write('t.case', case_text)
-        r = driver.run_inproc(ws, ['t.case'], mem_buff_size=buff)
-    detail = {'buff': buff, 'case_text': case_text, 'files': files, 'exit': r.exit_code, 'out': r.out[:300],
+        r = driver.run_inproc(ws, ['t.case'], mem_buff_size=case['buff'])
+    detail = {'buff': case['buff'], 'case_text': case_text, 'files': files, 'exit': r.exit_code, 'out': r.out[:300],
               'err': r.err[:1500], 'exception': r.exception}
-    if r.timed_out:
-        return Verdict(inconclusive=True, labels=labels)
-    if r.exception:
-        return fail('cli-verdict/escaped-exception', detail, labels=labels, nontrivial=nontrivial)
-    ident = r.first_out_line
-    if r.exit_code == 0 and ident == 'PASS':
+    return r, spans, detail
+
+
+def check_cli_verdicts(case) -> Verdict:
+    buff = case['buff']
+    _, _, spans = build_verdict_case(case)
+    t_actual = model.ref_text(_actual_node('file', case['text'], case['tr']))
+    labels = _cli_text_labels([case['text']], buff)
+    if case['tr'] is not None:
+        labels.extend('tr:' + t for t in model.tr_tags(case['tr']))
+    for _, _, ins, _, ref, _ in spans:
+        labels.extend(['actual:' + ins['a'], 'wrap:' + ins['w'], 'matcher:' + ins['m'][0],
+                       'wrap+matcher:%s/%s' % (ins['w'], ins['m'][0])])
+        labels.append('ref-verdict:%s' % ref)
+        if ins['m'][0] == 'eq':
+            exp = ins['m'][1]
+            kind = exp[0] if exp[0] != 'tr' else exp[2][0] + '+tr'
+            labels.append('pair:%s/%s' % (ins['a'] + ('+tr' if case['tr'] is not None else ''), kind))
+    labels = sorted(set(labels))
+    nontrivial = gen.is_special(case['text'], buff) or gen.is_special(t_actual, buff)
+    skip = set()
+    known = None
+    # an instruction whose verdict is the one defect model D2 predicts is left out and the rest is run again, so that
+    # every instruction of the case is judged
+    while True:
+        r, spans, detail = _run_verdict_case(case, skip)
+        if r.timed_out:
+            return Verdict(inconclusive=True, labels=labels)
+        if r.exception:
+            return fail('cli-verdict/escaped-exception', detail, labels=labels, nontrivial=nontrivial)
+        ident = r.first_out_line
+        if r.exit_code == 0 and ident == 'PASS':
+            break
+        ln = _failing_line(r)
+        span = [s for s in spans if ln is not None and s[0] <= ln <= s[1]]
+        if ident in ('SYNTAX_ERROR', 'VALIDATION_ERROR', 'FILE_ACCESS_ERROR') or not span:
+            return fail('cli-verdict/case-not-executed/%s' % ident, detail, labels=labels, nontrivial=nontrivial)
+        first, last, ins, node, ref, idx = span[0]
+        detail.update({'failing_instruction': ins, 'actual_source': node, 'reference_verdict_of_matcher': ref,
+                       'actual_text': model.ref_text(node)})
+        bucket = 'cli-verdict/%s/%s/%s/ref-%s' % (ident, ins['w'], ins['m'][0], ref)
+        if ident == 'FAIL' and model.d2_flips_verdict(node, ins['m']):
+            if known is None:
+                known = (bucket, detail)
+            skip.add(idx)
+            continue
+        return fail(bucket, detail, labels=labels, nontrivial=nontrivial)
+    if known is None:
         return Verdict(True, labels=labels, nontrivial=nontrivial)
-    ln = _failing_line(r)
-    span = [s for s in spans if ln is not None and s[0] <= ln <= s[1]]
-    if ident in ('SYNTAX_ERROR', 'VALIDATION_ERROR', 'FILE_ACCESS_ERROR') or not span:
-        return fail('cli-verdict/case-not-executed/%s' % ident, detail, labels=labels, nontrivial=nontrivial)
-    first, last, ins, node, ref = span[0]
-    detail.update({'failing_instruction': ins, 'actual_source': node, 'reference_verdict_of_matcher': ref,
-                   'actual_text': model.ref_text(node)})
-    tags = model.defect_flips_verdict(node, ins['m'], buff)
-    bucket = 'cli-verdict/%s/%s/%s/ref-%s' % (ident, ins['w'], ins['m'][0], ref)
-    if ident == 'FAIL':
-        pass
-    elif 'UnicodeDecodeError' in r.err or 'codec can' in r.err:
-        cl = model.closure(node, buff)
-        tags = cl.values.get(model.UNDECODABLE)
-        if tags is None and ins['m'][0] == 'eq':
-            tags = model.closure(ins['m'][1], buff).values.get(model.UNDECODABLE)
-    else:
-        tags = None
-    if tags:
-        detail['defect_model'] = 'verdict predicted by ' + '+'.join(sorted(tags))
-        return Verdict(ok=False, known=model.known_id(tags), bucket=bucket, detail=detail,
-                       labels=labels + ['known:' + '+'.join(sorted(tags))], nontrivial=nontrivial)
-    return fail(bucket, detail, labels=labels, nontrivial=nontrivial)
+    bucket, detail = known
+    detail['instructions_with_a_verdict_predicted_by_D2'] = sorted(skip)
+    with _no_newline_translation():
+        r2, _, d2 = _run_verdict_case(case, ())
+    if r2.timed_out:
+        return Verdict(inconclusive=True, labels=labels)
+    if not (r2.exit_code == 0 and r2.first_out_line == 'PASS' and not r2.exception):
+        detail['without_newline_translation'] = {k: d2[k] for k in ('exit', 'out', 'err', 'exception')}
+        return fail(bucket + '/persists-without-newline-translation', detail, labels=labels, nontrivial=nontrivial)
+    detail['defect_model'] = ('the verdict is the one that universal-newline reading of a text held in a file gives; '
+                              'the whole case passes when text files are opened with newline="\\n"')
+    return Verdict(ok=False, known=KF, bucket=bucket, detail=detail, labels=labels + ['known:D2'],
+                   nontrivial=nontrivial)
 
 
 def build_files_case(case):
+    """-> (case text, files, [(name of the observed file, source tree)])
+    file oN.txt = SRC, file oN.txt += SRC, env VN = SRC (shown by a shell command that prints it to eN.txt) in [setup]
+    or [before-assert]; stdin = SRC of an action that copies its stdin to stdout."""
     files = {}
-    out = ['[setup]\n']
+
+    def line(prefix, src):
+        s = prefix + gen.render_source(src, files)
+        return s if s.endswith('\n') else s + '\n'
+
+    body = []
     spans = []
-    line = 2
+    parts = {}
     for i, src in enumerate(case['srcs']):
-        s = 'file o%d.txt = %s' % (i + 1, gen.render_source(src, files))
-        if not s.endswith('\n'):
-            s += '\n'
-        spans.append((line, line + s.count('\n') - 1, 'o%d.txt' % (i + 1), gen.as_rendered(src)))
-        line += s.count('\n')
-        out.append(s)
+        body.append(line('file o%d.txt = ' % (i + 1), src))
+        parts[i] = [gen.as_rendered(src)]
+    for i, src in case.get('appends') or []:
+        body.append(line('file o%d.txt += ' % (i + 1), src))
+        parts[i].append(gen.as_rendered(src))
+    for i in sorted(parts):
+        spans.append(('o%d.txt' % (i + 1), parts[i][0] if len(parts[i]) == 1 else ['appended', parts[i]]))
+    for k, src in enumerate(case.get('envs') or []):
+        body.append(line('env V%d = ' % (k + 1), src))
+        body.append('$ printf %%s "$V%d" > e%d.txt\n' % (k + 1, k + 1))
+        spans.append(('e%d.txt' % (k + 1), gen.as_rendered(src)))
+    out = ['[setup]\n']
     if case['stdin'] is not None:
-        s = 'stdin = ' + gen.render_source(case['stdin'], files)
-        if not s.endswith('\n'):
-            s += '\n'
-        spans.append((line, line + s.count('\n') - 1, 'stdin', gen.as_rendered(case['stdin'])))
-        out.append(s)
+        out.append(line('stdin = ', case['stdin']))
+        spans.append(('stdin', gen.as_rendered(case['stdin'])))
+    if case.get('phase', 'setup') == 'setup':
+        out.extend(body)
     out.append('[act]\n$ cat\n')
+    if case.get('phase', 'setup') != 'setup':
+        out.append('[%s]\n' % case['phase'])
+        out.extend(body)
     return ''.join(out), files, spans
+
+
+def _run_files_case(case):
+    case_text, files, spans = build_files_case(case)
+    observed = {}
+    with driver.Workspace() as ws:
+        for name, content in files.items():
+            ws.write(name, content.encode('utf-8'))
+        ws.write('t.case', case_text)
+        r = driver.run_inproc(ws, ['--keep', 't.case'], mem_buff_size=case['buff'])
+        sb = r.out.strip()
+        if r.exit_code == 0 and sb and os.path.isdir(sb):
+            for name, _ in spans:
+                p = os.path.join(sb, 'result', 'stdout') if name == 'stdin' else os.path.join(sb, 'act', name)
+                try:
+                    with open(p, 'rb') as f:
+                        observed[name] = f.read()
+                except OSError:
+                    observed[name] = None
+    detail = {'buff': case['buff'], 'case_text': case_text, 'files': files, 'exit': r.exit_code, 'out': r.out[:300],
+              'err': r.err[:1500], 'exception': r.exception}
+    return r, spans, observed, detail
 
 
 def check_cli_files(case) -> Verdict:
     buff = case['buff']
-    case_text, files, spans = build_files_case(case)
+    _, _, spans = build_files_case(case)
     texts = []
-    for _, _, _, src in spans:
+    for _, src in spans:
         texts.extend(model.leaf_texts(src))
     labels = _cli_text_labels(texts, buff)
-    for _, _, name, src in spans:
+    labels.append('phase:' + case.get('phase', 'setup'))
+    for name, src in spans:
+        labels.append('consumer:' + ('stdin' if name == 'stdin' else 'env' if name.startswith('e') else
+                                     'file+=' if src[0] == 'appended' else 'file='))
         for n in model.nodes_preorder(src):
             if n[0] == 'tr':
                 labels.extend('tr:' + t for t in model.tr_tags(n[1]))
@@ -617,43 +722,15 @@ def check_cli_files(case) -> Verdict:
                 labels.append('node:' + n[0])
     labels = sorted(set(labels))
     nontrivial = any(gen.is_special(t, buff) for t in texts)
-    observed = {}
-    with driver.Workspace() as ws:
-        for name, content in files.items():
-            ws.write(name, content.encode('utf-8'))
-        ws.write('t.case', case_text)
-        r = driver.run_inproc(ws, ['--keep', 't.case'], mem_buff_size=buff)
-        sb = r.out.strip()
-        if r.exit_code == 0 and sb and os.path.isdir(sb):
-            for _, _, name, _ in spans:
-                p = os.path.join(sb, 'result', 'stdout') if name == 'stdin' else os.path.join(sb, 'act', name)
-                try:
-                    with open(p, 'rb') as f:
-                        observed[name] = f.read()
-                except OSError as ex:
-                    observed[name] = None
-    detail = {'buff': buff, 'case_text': case_text, 'files': files, 'exit': r.exit_code, 'out': r.out[:300],
-              'err': r.err[:1500], 'exception': r.exception}
+    r, spans, observed, detail = _run_files_case(case)
     if r.timed_out:
         return Verdict(inconclusive=True, labels=labels)
     if r.exception:
         return fail('cli-files/escaped-exception', detail, labels=labels, nontrivial=nontrivial)
-    known = None
     if r.exit_code != 0:
-        ident = r.first_err_line
-        ln = _failing_line(r)
-        span = [s for s in spans if ln is not None and s[0] <= ln <= s[1]]
-        if not span and 'In [act]' in r.err:
-            span = [s for s in spans if s[2] == 'stdin']  # the stdin of the action is read when it is started
-        if span and ('UnicodeDecodeError' in r.err or 'codec can' in r.err):
-            tags = model.closure(span[0][3], buff).values.get(model.UNDECODABLE)
-            if tags:
-                detail['defect_model'] = 'undecodable text predicted by ' + '+'.join(sorted(tags))
-                return Verdict(ok=False, known=model.known_id(tags), bucket='cli-files/%s/undecodable' % ident,
-                               detail=detail, labels=labels + ['known:' + '+'.join(sorted(tags))],
-                               nontrivial=nontrivial)
-        return fail('cli-files/not-passed/%s' % ident, detail, labels=labels, nontrivial=nontrivial)
-    for _, _, name, src in spans:
+        return fail('cli-files/not-passed/%s' % r.first_err_line, detail, labels=labels, nontrivial=nontrivial)
+    known = None
+    for name, src in spans:
         expected = model.ref_text(src)
         got = observed.get(name)
         if got == expected.encode('utf-8'):
@@ -661,34 +738,127 @@ def check_cli_files(case) -> Verdict:
         d = dict(detail)
         d.update({'file': name, 'source': src, 'expected_text': expected,
                   'observed': None if got is None else got.decode('utf-8', errors='backslashreplace')})
+        what = 'stdin' if name == 'stdin' else 'env' if name.startswith('e') else 'file'
         if got is None:
-            return fail('cli-files/%s/missing' % ('stdin' if name == 'stdin' else 'file'), d, labels=labels,
-                        nontrivial=nontrivial)
+            return fail('cli-files/%s/missing' % what, d, labels=labels, nontrivial=nontrivial)
+        bucket = 'cli-files/%s/%s' % (what, _diff_class(expected, got.decode('utf-8', errors='replace')))
         try:
-            tags = model.classify_text(src, buff, got.decode('utf-8'))
+            d2 = model.d2_predicts_text(src, got.decode('utf-8'))
         except UnicodeDecodeError:
-            tags = model.classify_text(src, buff, None)
-        bucket = 'cli-files/%s/%s' % ('stdin' if name == 'stdin' else 'file',
-                                      _diff_class(expected, got.decode('utf-8', errors='replace')))
-        if tags:
-            d['defect_model'] = 'predicted by ' + '+'.join(sorted(tags))
-            if known is None:
-                known = Verdict(ok=False, known=model.known_id(tags), bucket=bucket, detail=d,
-                                labels=labels + ['known:' + '+'.join(sorted(tags))], nontrivial=nontrivial)
-            continue
-        return fail(bucket, d, labels=labels, nontrivial=nontrivial)
-    if known is not None:
-        return known
-    return Verdict(True, labels=labels, nontrivial=nontrivial)
+            d2 = False
+        if not d2:
+            return fail(bucket, d, labels=labels, nontrivial=nontrivial)
+        if known is None:
+            known = (bucket, d)
+    if known is None:
+        return Verdict(True, labels=labels, nontrivial=nontrivial)
+    bucket, d = known
+    with _no_newline_translation():
+        r2, spans2, observed2, detail2 = _run_files_case(case)
+    if r2.timed_out:
+        return Verdict(inconclusive=True, labels=labels)
+    clean = r2.exit_code == 0 and not r2.exception and all(
+        observed2.get(name) == model.ref_text(src).encode('utf-8') for name, src in spans2)
+    if not clean:
+        d['without_newline_translation'] = {
+            'exit': r2.exit_code, 'err': r2.err[:600], 'exception': r2.exception,
+            'observed': {n: (None if v is None else v.decode('utf-8', errors='backslashreplace'))
+                         for n, v in observed2.items()}}
+        return fail(bucket + '/persists-without-newline-translation', d, labels=labels, nontrivial=nontrivial)
+    d['defect_model'] = ('the file holds what universal-newline reading of a text held in a file gives; every file is '
+                         'right when text files are opened with newline="\\n"')
+    return Verdict(ok=False, known=KF, bucket=bucket, detail=d, labels=labels + ['known:D2'], nontrivial=nontrivial)
+
+
+# ------------------------------------------------------------------------------------------------------
+# Layer B, metamorphic: one matcher (any matcher - no reference semantics), every source kind x every wrapping
+# ------------------------------------------------------------------------------------------------------
+def build_meta_case(case, variants, negate):
+    """-> (case text, files, [(line, kind, wrap)])   variants: [(kind, wrap)] names of gen.META_KINDS / META_WRAPS"""
+    files = {'actual.txt': case['text']}
+    out = ['[setup]\n', 'def text-matcher MM = ' + gen.render_meta_matcher(case['m'], files) + '\n',
+           'file lit.txt = ' + gen.quoted(case['text']) + '\n', '[act]\n$ cat {HOME}/actual.txt\n[assert]\n']
+    line = ''.join(out).count('\n') + 1
+    kinds, wraps = dict(gen.META_KINDS), dict(gen.META_WRAPS)
+    spans = []
+    for kind, wrap in variants:
+        src = kinds[kind] + ' ' + ('! ' if negate else '') + wraps[wrap] + '\n'
+        n = src.count('\n')
+        spans.append((line, line + n - 1, kind, wrap))
+        line += n
+        out.append(src)
+    return ''.join(out), files, spans
+
+
+def check_cli_metamorphic(case) -> Verdict:
+    """The verdict of `contents FILE : M` is taken as it comes (PASS or FAIL); then every other kind of source with
+    the same text, under every wrapping that leaves the text as it is, must give that verdict too."""
+    buff, text = case['buff'], case['text']
+    labels = _cli_text_labels([text], buff) + ['m:' + t for t in sorted(set(gen.meta_tags(case['m'])))]
+    nontrivial = gen.is_special(text, buff)
+
+    def run(variants, negate):
+        case_text, files, spans = build_meta_case(case, variants, negate)
+        with driver.Workspace() as ws:
+            for name, content in files.items():
+                ws.write(name, content.encode('utf-8'))
+            ws.write('t.case', case_text)
+            r = driver.run_inproc(ws, ['t.case'], mem_buff_size=buff)
+        return r, spans, {'buff': buff, 'case_text': case_text, 'files': files, 'exit': r.exit_code,
+                          'out': r.out[:300], 'err': r.err[:1500], 'exception': r.exception}
+
+    r, _, detail = run([('file', 'plain')], False)
+    if r.timed_out:
+        return Verdict(inconclusive=True, labels=labels)
+    if r.exception:
+        return fail('meta/base/escaped-exception', detail, labels=labels, nontrivial=nontrivial)
+    base = r.first_out_line
+    if base not in ('PASS', 'FAIL'):
+        return fail('meta/base/not-executed/%s' % base, detail, labels=labels, nontrivial=nontrivial)
+    labels.append('base-verdict:' + base)
+    variants = [(k, w) for k, _ in gen.META_KINDS for w, _ in gen.META_WRAPS if (k, w) != ('file', 'plain')]
+    r, spans, detail = run(variants, base == 'FAIL')
+    if r.timed_out:
+        return Verdict(inconclusive=True, labels=labels)
+    if r.exception:
+        return fail('meta/variants/escaped-exception', detail, labels=labels, nontrivial=nontrivial)
+    if r.exit_code == 0 and r.first_out_line == 'PASS':
+        return Verdict(True, labels=labels, nontrivial=nontrivial)
+    ln = _failing_line(r)
+    span = [s for s in spans if ln is not None and s[0] <= ln <= s[1]]
+    detail['verdict_of_contents_FILE_M'] = base
+    if r.first_out_line != 'FAIL' or not span:
+        return fail('meta/variants/not-executed/%s' % r.first_out_line, detail, labels=labels, nontrivial=nontrivial)
+    _, _, kind, wrap = span[0]
+    detail['disagreeing_variant'] = {'source': kind, 'wrapping': wrap}
+    return fail('meta/%s/%s/base-%s' % (kind, wrap, base), detail, labels=labels, nontrivial=nontrivial)
+
+
+def decode_api(data: bytes):
+    return gen.decode_api_case(data)
 
 
 SUBS = [
     Sub('api_access', check_api, strategy=lambda tier: gen.api_cases(big=(tier == 'thorough')),
-        budget={'quick': 20000, 'thorough': 600000}),
+        budget={'quick': 20000, 'thorough': 300000}),
+    fuzz.fuzz_sub('api_access_fuzz', 'props.c14_onevalue', 'check_api', 'decode_api', 'api_access',
+                  runs={'quick': 4000, 'thorough': 150000}, shards={'quick': 8, 'thorough': 16}, max_len=72, timeout_s=3000,
+                  instrument=('exactly_lib.impls.types.string_source', 'exactly_lib.type_val_prims.string_source',
+                              'exactly_lib.util.file_utils.spooled_file',
+                              'exactly_lib.impls.types.string_transformer.impl.filter',
+                              'exactly_lib.impls.types.string_transformer.impl.sources',
+                              'exactly_lib.impls.types.string_transformer.impl.strip_space',
+                              'exactly_lib.impls.types.string_transformer.impl.replace'),
+                  seeds=[bytes([6, 3, 9, 2, 3, 0, 1, 2, 1, 1, 0, 1, 4, 8, 2, 1, 3, 12, 2, 7, 3, 3, 2, 10, 1, 0, 1, 3, 1]),
+                         bytes([1, 0, 3, 13, 2, 2, 0, 7, 1, 2, 8, 1, 5, 11, 1, 0, 1, 2, 4, 0, 1, 10, 1, 3, 1, 6, 1])]),
+    Sub('api_orders', check_api, enumerate=gen.order_cases, exhaustive=True),
+    Sub('api_small_texts', check_api, enumerate=gen.small_text_cases, exhaustive=True),
     Sub('api_freeze_once', check_api_freeze_once, strategy=lambda tier: gen.freeze_once_cases(),
-        budget={'quick': 1500, 'thorough': 40000}),
+        budget={'quick': 1500, 'thorough': 30000}),
     Sub('cli_files', check_cli_files, strategy=lambda tier: gen.cli_file_cases(),
-        budget={'quick': 1500, 'thorough': 40000}),
+        budget={'quick': 1500, 'thorough': 30000}),
     Sub('cli_verdicts', check_cli_verdicts, strategy=lambda tier: gen.cli_verdict_cases(),
-        budget={'quick': 2000, 'thorough': 60000}),
+        budget={'quick': 2000, 'thorough': 40000}),
+    Sub('cli_metamorphic', check_cli_metamorphic, strategy=lambda tier: gen.cli_meta_cases(),
+        budget={'quick': 500, 'thorough': 12000}),
 ]
